@@ -68,3 +68,11 @@ Proof. exact reordered_rings_same_region. Qed.
 Theorem C07_other_direction_same_region :
   forall (r : ring) (rs : list ring) p, inside_eo (rev r :: rs) p = inside_eo (r :: rs) p.
 Proof. exact reversed_ring_same_region. Qed.
+
+(** the closing point: a ring given closed (first point repeated at the end) denotes the same
+    region as the ring given open *)
+From GB Require Import BoundaryClose.
+Theorem C07_closing_point_same_region :
+  forall (a : qpt) (l : list qpt) (rs : list ring) p,
+  inside_eo ((a :: l ++ (a :: nil)) :: rs) p = inside_eo ((a :: l) :: rs) p.
+Proof. exact closed_ring_same_region. Qed.
